@@ -29,6 +29,9 @@ type e4Config struct {
 	BaseUs        int  `json:"baseUs,omitempty"`
 	MaxUs         int  `json:"maxUs,omitempty"`
 	MaxRead       int  `json:"maxRead,omitempty"`
+	// CancelConnectCtx: the context given to Connect is cancelled as soon as Connect returned
+	// (ctx, cancel := WithTimeout(...); defer cancel(); cli.Connect(ctx) - the usual caller pattern)
+	CancelConnectCtx bool `json:"cancelConnectCtx,omitempty"`
 }
 
 type e4Step struct {
@@ -404,7 +407,12 @@ func e4Run(c e4Case) (res *e4Result) {
 		go func() {
 			defer close(connDone)
 			copts := []ConnectOption{WithCleanSession(c.Cfg.CleanSession)}
-			_, err := cli.Connect(ctx, "verif-client", copts...)
+			cctx, ccancel := context.WithCancel(ctx)
+			_, err := cli.Connect(cctx, "verif-client", copts...)
+			if c.Cfg.CancelConnectCtx {
+				ccancel() // after the first connection the loop must not depend on the caller's context
+			}
+			_ = ccancel
 			e.mu.Lock()
 			res.ConnectErr, res.ConnectReturn = err, true
 			e.mu.Unlock()
@@ -507,6 +515,8 @@ func e4Run(c e4Case) (res *e4Result) {
 			if disconnected {
 				if discConn != nil {
 					smp := c16Sample{Seq: log.lastSeq(), Conn: discConn.id, AfterDisc: true, Err: discConn.cli.Err()}
+					lc, pc := discConn.mc.isClosed()
+					smp.TransportClosed = lc || pc
 					select {
 					case <-discConn.cli.Done():
 					default:
@@ -774,13 +784,14 @@ func e4GenFaults(rt *rapid.T, o e4GenOpts) []e4Fault {
 
 func e4GenConfig(rt *rapid.T) e4Config {
 	return e4Config{
-		CleanSession: rapid.IntRange(0, 3).Draw(rt, "clean") == 0,
-		SessionKept:  rapid.IntRange(0, 3).Draw(rt, "kept") != 0,
-		AlwaysResub:  rapid.IntRange(0, 4).Draw(rt, "always") == 0,
-		MethodB:      rapid.Bool().Draw(rt, "methodB"),
-		BaseUs:       rapid.SampledFrom([]int{200, 500, 1000}).Draw(rt, "baseUs"),
-		MaxUs:        rapid.SampledFrom([]int{1000, 2000, 4000}).Draw(rt, "maxUs"),
-		MaxRead:      rapid.SampledFrom([]int{0, 0, 0, 1, 3}).Draw(rt, "maxRead"),
+		CleanSession:     rapid.IntRange(0, 3).Draw(rt, "clean") == 0,
+		SessionKept:      rapid.IntRange(0, 3).Draw(rt, "kept") != 0,
+		AlwaysResub:      rapid.IntRange(0, 4).Draw(rt, "always") == 0,
+		MethodB:          rapid.Bool().Draw(rt, "methodB"),
+		BaseUs:           rapid.SampledFrom([]int{200, 500, 1000}).Draw(rt, "baseUs"),
+		MaxUs:            rapid.SampledFrom([]int{1000, 2000, 4000}).Draw(rt, "maxUs"),
+		MaxRead:          rapid.SampledFrom([]int{0, 0, 0, 1, 3}).Draw(rt, "maxRead"),
+		CancelConnectCtx: rapid.Bool().Draw(rt, "cancelConnectCtx"),
 	}
 }
 
